@@ -60,21 +60,23 @@ def judge(chk, prop, family, traces, results, steps_of, sig_of, sources, alias=N
         viol = res["viol"]
         real = [(c, l) for (c, l) in viol if not c.startswith("ENV.")]
         env = [(c, l) for (c, l) in viol if c.startswith("ENV.")]
+        diverged = None
         for c, l in env:
             if c == "ENV.impossible" and not [x for x in real if x[1] < l] and not [d for d in res["drift"] if d[1] < l] \
                     and not [x for x in env if x[0] == "ENV.exception" and x[1] < l]:
-                import os
-                os.makedirs(os.path.join(tlc.BUILD, "replays"), exist_ok=True)
-                with open(os.path.join(tlc.BUILD, "replays", "machinery.json"), "w") as fh:
-                    json.dump({"family": family, "trace": tr, "line": l}, fh)
-                raise tlc.MachineryError("%s trace %d (%s): event %d impossible in the model with no earlier "
-                                         "divergence: %s" % (family, i, sources[i], l, json.dumps(steps[:l])))
+                # The schedule was drawn from what the REAL objects allowed (a pending timer, an outstanding call) or,
+                # for TLC-generated schedules, could not be executed at this step: the implementation is in a state
+                # the specification does not have, without any observable difference before.  On the unchanged tree
+                # this does not occur; it is reported against the property under check.
+                diverged = l
         first = {}
         for c, l in sorted(real, key=lambda x: x[1]):
             first.setdefault(c, l)
         exc = [l for (c, l) in env if c == "ENV.exception"]
         if exc and not real:
             first["%s.exception" % prop] = min(exc)
+        if diverged is not None:
+            first["%s.left_the_model" % prop] = diverged
         for c, l in list(first.items()):
             if alias is not None:
                 c2 = alias(c, steps[l - 1])
